@@ -774,6 +774,7 @@ func (x *Exec) loopHead(st *State, fr *Frame, b *ssa.BasicBlock, pred *ssa.Basic
 	}
 	eff := x.loopEffects(st, fr, b)
 	x.havoc(st, fr, eff)
+	x.havocShared(st, fr)
 	env = x.envFor(st, fr)
 	if spec != nil {
 		for _, c := range spec.Invariants {
@@ -785,6 +786,35 @@ func (x *Exec) loopHead(st *State, fr *Frame, b *ssa.BasicBlock, pred *ssa.Basic
 	}
 	st.trace = append(st.trace, fmt.Sprintf("loop%d", ord))
 	return true
+}
+
+// havocShared: locations declared shared with other goroutines are unknown
+// again, constrained only by their rely condition.
+func (x *Exec) havocShared(st *State, fr *Frame) {
+	if fr.fc == nil || len(fr.fc.Shared) == 0 {
+		return
+	}
+	before := st.clone()
+	for _, sh := range fr.fc.Shared {
+		env := x.envFor(st, fr)
+		a := x.evalAddr(env, sh.Loc)
+		if a == nil {
+			x.abort(st, "shared: cannot resolve "+sh.Src)
+			return
+		}
+		nv := x.freshVal("shared", a.T, nil)
+		x.storeAddr(st, a, nv)
+		st.assume(x.typeInv(x.loadAddr(st, a), st))
+	}
+	for _, sh := range fr.fc.Shared {
+		if sh.Rely != nil {
+			env := x.envFor(st, fr)
+			env.old = before
+			env.relyOld = before
+			st.assume(x.evalBool(env, sh.Rely))
+		}
+	}
+	x.E.noteAssumption("rely: locations declared `shared` change between steps only as their rely condition allows (" + relName(fr.fn) + ")")
 }
 
 func labelOr(c Clause, d string) string {
